@@ -233,10 +233,18 @@ func (e *env) degenerateCalls(encBin, encJSON []byte, enc *tinkpb.EncryptedKeyse
 	kek := newKEK()
 	ctx, ckek := context.Background(), tk.CtxAEAD(kek)
 	nothingToRead := true
+	trustedArgument := false // the nil KEK is the caller's argument, not untrusted input: a panic is counted only
 	call := func(name string, fn func() (*keyset.Handle, error)) {
 		var h *keyset.Handle
 		var err error
-		e.guard(name, func() { h, err = fn() })
+		if trustedArgument {
+			if p, _ := try(func() { h, err = fn() }); p != nil {
+				evid.Add("observed_not_asserted/nil_kek_panic", 1)
+				return
+			}
+		} else {
+			e.guard(name, func() { h, err = fn() })
+		}
 		evid.Add("degenerate_reader_calls", 1)
 		if err != nil {
 			return
@@ -266,7 +274,7 @@ func (e *env) degenerateCalls(encBin, encJSON []byte, enc *tinkpb.EncryptedKeyse
 		return keyset.Read(&keyset.MemReaderWriter{EncryptedKeyset: &tinkpb.EncryptedKeyset{}}, kek)
 	})
 	// nil key-encryption AEAD (the untyped nil interface value)
-	nothingToRead = false
+	nothingToRead, trustedArgument = false, true
 	readers := map[string]func() keyset.Reader{
 		"BinaryReader": func() keyset.Reader { return keyset.NewBinaryReader(bytes.NewReader(encBin)) },
 		"MemReaderWriter": func() keyset.Reader {
@@ -305,24 +313,41 @@ func (e *env) decide(ks *tinkpb.Keyset, ad []byte, in inputs, extra ...string) (
 	if len(acc) == 0 {
 		return "rejected-at-read", nil
 	}
-	var first *tinkpb.KeysetInfo
-	for i, a := range acc {
-		sub := *e
-		sub.what = e.what + " / reader " + a.reader
-		ki := sub.checkHandle(a.h)
-		if i == 0 {
-			first = ki
-			continue
-		}
-		if !proto.Equal(first, ki) {
-			sub.failf("readers %q and %q produced handles with different KeysetInfo for the same keyset:\n%v\n%v", acc[0].reader, a.reader, first, ki)
-		}
-	}
+	chosen, infos := e.checkAccepted(acc, in)
 	sub := *e
-	sub.what = e.what + " / reader " + acc[0].reader
-	rs := sub.exercise(acc[0].h, first, in, extra...)
+	sub.what = e.what + " / reader " + acc[chosen].reader
+	rs := sub.exercise(acc[chosen].h, infos[chosen], in, extra...)
 	for f, r := range rs {
 		evid.Add("factory_"+f+"_"+r.outcome, 1)
 	}
-	return best(rs), first
+	evid.Add("exercised_reader/"+acc[chosen].reader, 1)
+	return best(rs), infos[chosen]
+}
+
+// checkAccepted checks every accepted handle for well-formedness and picks the one to exercise
+// (in.pick, drawn by the caller: every reader's handle gets its turn, not only the first reader's).
+// That all readers give the SAME handle for one keyset is not in the property text: disagreements in
+// KeysetInfo or in the entries' keys (Equal) are counted, not asserted.
+func (e *env) checkAccepted(acc []accepted, in inputs) (chosen int, infos []*tinkpb.KeysetInfo) {
+	for _, a := range acc {
+		sub := *e
+		sub.what = e.what + " / reader " + a.reader
+		infos = append(infos, sub.checkHandle(a.h))
+	}
+	chosen = int(in.pick % uint64(len(acc)))
+	for i, a := range acc {
+		if i == chosen {
+			continue
+		}
+		if !proto.Equal(infos[chosen], infos[i]) {
+			evid.Add("observed_not_asserted/readers_disagree_on_keysetinfo", 1)
+		}
+		var same bool
+		if p, _ := try(func() { same, _ = sameHandles(acc[chosen].h, a.h) }); p != nil || !same {
+			evid.Add("observed_not_asserted/readers_disagree_on_keys", 1)
+		} else {
+			evid.Add("readers_agree_on_keys", 1)
+		}
+	}
+	return chosen, infos
 }
